@@ -31,6 +31,26 @@ type scriptIn struct {
 	// returns j % n — and there are as many lookups as the first call's n. Under a uniform source every value of
 	// the range is equally likely, so the counts of one sweep are the exact distribution of the random picker.
 	Sweep bool `json:"sweep,omitempty"`
+	// Entry selects the entry point of the lookups (rr/rnd streams): "" = Table.Lookup (HTTP proxy, gRPC
+	// handler), "host" = Table.LookupHost (the TCP and TCP+SNI proxies; it looks up the path "/").
+	Entry string `json:"entry,omitempty"`
+}
+
+// lookup performs one lookup through the entry point the input names.
+func (in *scriptIn) lookup(t route.Table, pick string) *route.Target {
+	if in.Entry == "host" {
+		host, _ := route.VerifHostpath(in.Src)
+		return t.LookupHost(host, route.Picker[pick])
+	}
+	return t.Lookup(request(in.Src), "", route.Picker[pick], route.Matcher["prefix"], globCache, false)
+}
+
+// genEntry: routes whose path is "/" are reachable through LookupHost as well.
+func genEntry(r *hx.Rand, src string) string {
+	if _, path := route.VerifHostpath(src); path == "/" && r.Chance(1, 3) {
+		return "host"
+	}
+	return ""
 }
 
 func errClass(err error) string {
